@@ -11,6 +11,8 @@ args = sys.argv[1:]
 ALL = '--all' in args
 only = [a for a in args if not a.startswith('--')]
 claimed = [c['property_id'] for c in json.load(open(os.path.join(V, 'MANIFEST.json')))['checks']]
+if os.environ.get('ASL_CHECKS'):
+    claimed = [c for c in claimed if c in os.environ['ASL_CHECKS'].split(',')]
 VERD = {0: 'silent (exit 0)', 1: 'FALSE ALARM (exit 1)', 2: 'analysis-incomplete (exit 2)'}
 
 
